@@ -34,8 +34,15 @@ class EinsumV(Value):
         self.args = (subscripts, a, b)
 
 
+CONTAINERS = (list, tuple, dict, B.PyList, SSeq)
+
+
 def is_single_leaf(t):
-    return isinstance(t, (ST.LeafV, EinsumV)) or (isinstance(t, ST.StructV) and t.single)
+    if isinstance(t, ST.StructV):
+        return t.single
+    if isinstance(t, CONTAINERS) or t is None:
+        raise Unsupported(f'pytree container {t!r}')
+    return True          # any array-like value (of whatever facet) is a leaf
 
 
 def install(T: Theory):
@@ -49,9 +56,7 @@ def install(T: Theory):
     def _is_leaf(interp, td):
         if not isinstance(td, TreedefV):
             raise Unsupported('treedef_is_leaf of an unknown treedef')
-        if isinstance(td.tree, (ST.LeafV, ST.StructV, EinsumV)):
-            return is_single_leaf(td.tree)
-        raise Unsupported(f'treedef_is_leaf of the treedef of {td.tree!r}')
+        return is_single_leaf(td.tree)
 
     @T.ext('jax.tree.flatten', 'jax.tree_util.tree_flatten')
     def _flatten(interp, tree, is_leaf=None):
@@ -79,7 +84,10 @@ def install(T: Theory):
             leaves = SSeq(tree.leaves.length,
                           lambda k: interp.call(f, [tree.leaves.get(k)] + [r.leaves.get(k) for r in rest], {}), 'list')
             return ST.StructV(leaves, tree.treedef)
-        return old_map(interp, f, tree, *rest, is_leaf=is_leaf)
+        if isinstance(tree, (ST.StructV, ST.LeafV)):
+            return old_map(interp, f, tree, *rest, is_leaf=is_leaf)
+        if is_single_leaf(tree):
+            return interp.call(f, [tree] + list(rest), {})
 
     @T.ext('jax.tree.all', 'jax.tree_util.tree_all')
     def _all(interp, tree):
